@@ -47,9 +47,9 @@ CLAIMED = {
    note="crypto/ecdsa (Sign, SignASN1, VerifyASN1), math/big, crypto/elliptic and hash functions are trusted contracts over uninterpreted predicates (ecdsaVerifies, derSig, beNat, ...): 'an independent strict verifier accepts' is reduced to that predicate. crypto/ed25519 and crypto/rsa likewise (ed25519Verifies, rsaPKCS1Verifies, rsaPSSVerifies). ASN1Encode is an assumed contract. The signature factories, key constructors (NewSigner/NewVerifier of Ed25519/RSA) and ASN.1 strictness are NOT covered in this snapshot.",
    ref="DESIGN.md section 5 C03"),
  "C05": dict(
-   text="Streaming AEAD key matching only: proof that decryptReader.Read starts every candidate key's decrypting reader on the rewound ciphertext (loop invariant: replay buffer position 0, buffer enabled, no reader chosen yet), keeps the first key whose first Read succeeds, reports errKeyNotFound with no bytes otherwise and on every later call, and writes nothing but the caller's buffer and its own state.",
-   note="tink.StreamingAEAD.NewDecryptingReader and io.Reader.Read are trusted interface contracts (they may consume the replay buffer, nothing else). The prefix-indexed primitive sets of AEAD/DAEAD/MAC/signature/hybrid/JWT/PRF factories, key status filtering and monitoring are NOT covered in this snapshot.",
-   ref="DESIGN.md section 5 C05"),
+   text="Keyset wrappers of AEAD, deterministic AEAD, MAC and signatures, the prefix map behind them, and streaming AEAD key matching. Prefix map: the candidates for an input are exactly the entries stored under the input's first five bytes (if it has that many), in insertion order, followed by the entries stored under the empty prefix; Insert appends to the list of its prefix and touches no other list; Next yields each candidate once in that order. Wrappers: Encrypt / EncryptDeterministically / ComputeMAC / Sign use the primary entry only and log its key id (a failure is logged as a failure); Decrypt / DecryptDeterministically / VerifyMAC / Verify succeed iff some candidate of the input's prefix (or a RAW candidate) accepts, return that candidate's result, log that candidate's key id, and fail (logging a failure) only if no candidate accepts; MACs of five bytes or fewer are rejected. Legacy adapters put the key's output prefix in front of the raw output and suffix 0x00 to the message for LEGACY keys. Streaming: decryptReader.Read starts every candidate key's reader on the rewound ciphertext, keeps the first whose first Read succeeds, reports errKeyNotFound otherwise and on every later call.",
+   note="tink.AEAD / DeterministicAEAD / MAC / Signer / Verifier / StreamingAEAD, monitoring.Logger and io.Reader are trusted interface contracts (deterministic functions of object and input with ghost logs). NOT covered: construction of the wrappers from a handle (which entries are inserted: only ENABLED keys, their prefixes, the primary), hybrid and JWT and PRF-set wrappers, the registry dispatch.",
+   ref="DESIGN.md section 5 C05 and section 10.3"),
  "C06": dict(
    text="ECIES-AEAD-HKDF (hybrid/subtle): proof that PointEncode produces the SEC 1 fixed-width encodings (uncompressed, legacy uncompressed without the 0x04 byte, compressed with the parity byte) exactly for on-curve points and PointDecode accepts exactly the byte strings of the right length/tag that decode to an on-curve point; ComputeSharedSecret = fixed-width x coordinate of D*P iff the peer point is on the curve; decapsulate/encapsulate derive HKDF(kem || shared secret, salt, info); Decrypt succeeds iff header, KEM, DEM key and DEM decryption all succeed and returns the DEM plaintext; Encrypt outputs kem || DEM ciphertext for a fresh ephemeral key whose DEM ciphertext decrypts to the plaintext under the key the recipient derives (Diffie-Hellman commutativity as an axiom).",
    note="crypto/elliptic, math/big, crypto/ecdh arithmetic (ecdhX, onCurve, pubX...), HKDF, the DEM helper and the tink.AEAD/DeterministicAEAD interfaces are trusted contracts over uninterpreted functions; getY (point decompression) is an assumed contract. HPKE: only the AES-GCM AEAD seal/open (standard AES-GCM under (key, nonce, aad); the caller's ciphertext is not written) is under contract. The end-to-end ECIES round trip as one lemma, the HPKE key schedule (RFC 9180 labels, suite ids, KEMs X25519/ML-KEM/X-Wing), ChaCha20-Poly1305 and the hybrid factories are NOT covered in this snapshot.",
